@@ -1,7 +1,8 @@
 (* C03 — outbound flow control: in-flight <= Receive Maximum, unique ids, no quota leak. *)
 From Coq Require Import List NArith ZArith Bool.
 Import ListNotations.
-From VMQ Require Import model.Flow model.Writer proofs.FlowProofs proofs.WriterProofs.
+From Coq Require String.
+From VMQ Require Import gen.Extracted model.Flow model.Writer proofs.FlowProofs proofs.WriterProofs model.AckOrder proofs.AckOrderProofs.
 Open Scope N_scope.
 
 (* Histories: publishes handed to the client's writer, writer rounds, acknowledgements, connection
@@ -60,6 +61,30 @@ Theorem C03_wraparound : forall c used, NoDup used -> (length used < N.to_nat 65
   acquire_loop acquire_fuel c used <> None.
 Proof. exact acquire_loop_finds. Qed.
 Print Assumptions C03_wraparound.
+
+(* 6. finer than one Flow operation: an acknowledgement is two accesses (the entry of the unacknowledged set, the
+      release callback that gives the identifier back) and the writer's pop may run between them.  With the order
+      the code has (model/AckOrder.v, variant 0; the order itself is read from the source: ack_shape) EVERY
+      interleaving of acknowledgements and pops keeps: identifiers in use pairwise distinct, quota + in use =
+      Receive Maximum, and - whenever no acknowledgement is half-way - the identifiers in use are exactly those of
+      the registered (transmitted, unacknowledged) messages, so quota + unacknowledged = Receive Maximum. *)
+Theorem C03_ack_order_accounting : forall rm unacked waiting es,
+  NoDup (map fst unacked) -> (Z.of_nat (length unacked) <= rm)%Z ->
+  let s := arun 0 (astart rm unacked waiting) es in
+  NoDup (map fst (reg s)) /\ NoDup (inuse (afl s)) /\
+  (quota (afl s) + Z.of_nat (length (inuse (afl s))) = rm)%Z /\ (0 <= quota (afl s))%Z /\
+  (apcs s = AIdle -> (forall x, In x (inuse (afl s)) <-> In x (map fst (reg s))) /\
+                     (quota (afl s) + Z.of_nat (length (reg s)) = rm)%Z).
+Proof. exact ack_order_accounting. Qed.
+Print Assumptions C03_ack_order_accounting.
+
+Import String.StringSyntax Ascii.AsciiSyntax.
+Open Scope string_scope.
+Eval vm_compute in (ashape_diff ack_shape).
+Close Scope string_scope.
+Theorem C03_ack_shape : ashape_ok ack_shape = true.
+Proof. vm_compute. reflexivity. Qed.
+Print Assumptions C03_ack_shape.
 
 (* non-vacuity: Receive Maximum 2, four publishes (one expired), out-of-order acks, a reconnect *)
 Definition c03_example : list ev :=
